@@ -45,8 +45,8 @@ def _map_cases(draw, max_segments):
         ticks.update(t for t in range(s0, s0 + 40) if t <= max_tick)
     ticks.update(draw(st.lists(G.tick_strategy(tm, max_tick), max_size=10)))
     ticks = sorted(ticks)
-    if len(ticks) > 400:
-        ticks = ticks[:400]
+    if len(ticks) > 2400:
+        ticks = ticks[:2400]
     return {"res": tmap["res"], "tempo": tmap["tempo"], "ticks": ticks}
 
 
